@@ -202,6 +202,48 @@ DRV_OP(OpRsCtx, "rs.ctx") {
   return out;
 }
 
+// change declarations of an existing context IN PLACE: long-lived analysers bound to it stay alive and must follow
+DRV_OP(OpRsCtxPatch, "rs.ctx.patch") {
+  auto& ctx = *Contexts().at(a.at("ctx").get<std::string>());
+  const auto& spec = a.at("spec");
+  const json p_types = spec.value("types", json::object());
+  for (const auto& [key, val] : p_types.items()) {
+    ctx.types.erase(key);
+    if (val.is_string() && val.get<std::string>() == "LOGIC") {
+      ctx.types.emplace(key, LogicT{});
+    } else {
+      ctx.types.emplace(key, drv::BuildType(val));
+    }
+  }
+  const json p_funcs = spec.value("funcs", json::object());
+  for (const auto& [key, val] : p_funcs.items()) {
+    FunctionArguments args;
+    for (const auto& arg : val) {
+      args.emplace_back(arg.at(0).get<std::string>(), drv::BuildType(arg.at(1)));
+    }
+    ctx.funcs.erase(key);
+    ctx.funcs.emplace(key, std::move(args));
+  }
+  const json p_vclass = spec.value("vclass", json::object());
+  for (const auto& [key, val] : p_vclass.items()) {
+    ctx.vclass.erase(key);
+    ctx.vclass.emplace(key, ClassOf(val.get<std::string>()));
+  }
+  json astOk = json::object();
+  const json p_asts = spec.value("asts", json::object());
+  for (const auto& [key, val] : p_asts.items()) {
+    Parser parser{};
+    ctx.asts.erase(key);
+    if (parser.Parse(val.get<std::string>(), Syntax::MATH)) {
+      ctx.asts.emplace(key, parser.ExtractAST());
+      astOk[key] = true;
+    } else {
+      astOk[key] = false;
+    }
+  }
+  return json{ {"asts", astOk} };
+}
+
 DRV_OP(OpRsCheck, "rs.check") {
   const auto cname = a.at("ctx").get<std::string>();
   auto& ctx = *Contexts().at(cname);
